@@ -117,6 +117,7 @@ def run_impl(cases):
     S = J.sm()
     rows = []
     for i, c in enumerate(cases, 1):
+        c["pts"] = [p for p in c["pts"] if not (set(J.variables(c["tree"])) <= set(p) and SV.out_of_range(c["tree"], p))]
         heap = J.tree_to_heap(c["tree"], share=c["share"])
         objs = J.build_heap(heap)
         root = objs[-1]
